@@ -165,8 +165,14 @@ impl WinGen {
 		});
 		let ts_kind = rng.below(9);
 		let diff_kind = rng.below(7);
-		let sc_kind = rng.below(5);
+		// 5: scale drifting along the window; 6 / 7: ONE large-scale secondary block at the newest /
+		// the oldest end of an otherwise uniform primary window (a scaling window shifted by one header
+		// changes the scale sum and the secondary count exactly there)
+		let sc_kind = rng.below(8);
 		let sec_kind = rng.below(5);
+		let drift = rng.range(1, 5000) as u32;
+		let big_scale = (1u32 << rng.range(20, 31)) + rng.below(1000) as u32;
+		stats.hit(&format!("sc{}", sc_kind));
 		stats.hit(&format!("ts{}", ts_kind));
 		stats.hit(&format!("diff{}", diff_kind));
 		let mut ts: u64 = match rng.below(5) {
@@ -198,11 +204,16 @@ impl WinGen {
 				1 => rng.next() as u32,
 				2 => u32::MAX - rng.below(3) as u32,
 				3 => rng.below(30) as u32,
+				5 => ct_weight.wrapping_add(drift.wrapping_mul(i as u32)),
+				6 => if i == 0 { big_scale } else { ct_weight },
+				7 => if i + 1 == len { big_scale } else { ct_weight },
 				_ => ct_weight.wrapping_add(rng.below(200) as u32),
 			};
-			let sec = match sec_kind {
-				0 => true,
-				1 => false,
+			let sec = match (sc_kind, sec_kind) {
+				(6, _) => i == 0,
+				(7, _) => i + 1 == len,
+				(_, 0) => true,
+				(_, 1) => false,
 				_ => rng.below(100) < sec_p,
 			};
 			w.push(hdi(ts, diff, scaling, sec));
@@ -3038,7 +3049,10 @@ fn run_roots(out: &mut Out, rng: &mut Rng, thorough: bool) {
 	let hh: Vec<BlockHeader> = honest.iter().map(|b| b.header.clone()).collect();
 	out.line(&format!("cons rnode {} newct auto {}", id, kr.fhdr(&genesis.header)), "ok");
 	kr.state(out, id, &subject);
-	let kinds = ["bitflip", "sibling-chain", "one-earlier", "one-later"];
+	// besides roots of OTHER header MMRs, special VALUES: the all-zero hash (what genesis carries as
+	// prev_root - a shortcut keyed on the value instead of the height would let it through), all ones,
+	// the parent's hash, the parent's own prev_root
+	let kinds = ["bitflip", "sibling-chain", "one-earlier", "one-later", "zero-hash", "all-ones", "parent-hash", "previous-root"];
 	let mut base = 0usize;
 	let mut round = 0usize;
 	while base + 8 <= n_blocks {
@@ -3086,6 +3100,10 @@ fn run_roots(out: &mut Out, rng: &mut Rng, thorough: bool) {
 					}
 					Some(header_mmr_root(&hh[..base + k - 1]))
 				}
+				"zero-hash" => Some(Hash::from_vec(&[0u8; 32])),
+				"all-ones" => Some(Hash::from_vec(&[0xffu8; 32])),
+				"parent-hash" => Some(seg[k - 1].prev_hash),
+				"previous-root" => Some(if k >= 2 { seg[k - 2].prev_root } else { hh[base].prev_root }),
 				_ => Some(header_mmr_root(&hh[..base + k + 1])),
 			}
 		};
@@ -3143,6 +3161,22 @@ fn run_roots(out: &mut Out, rng: &mut Rng, thorough: bool) {
 				let stored = chunk.iter().any(|h| subject.get_block_header(&h.hash()).is_ok());
 				if class != "InvalidRoot" || before != after || stored {
 					kr.fail(out, format!("chunk of {} headers on top of height {} with a wrong prev_root ({}) at position {} ({}), later headers built on it honestly: {} stored={} before={} after={} bad={}", len, base, kind, k, pos_name, class, stored, before, after, show_stored(&chunk[k - 1])));
+				}
+				// the special values also as a single header / block on a known parent
+				if k == 1 && matches!(*kind, "zero-hash" | "all-ones" | "parent-hash" | "previous-root") {
+					out.raw(&format!("# roots special prev_root value {} on a known parent (height {}), single header", kind, base));
+					let class = kr.pbh(out, id, &subject, Options::NONE, &chunk[0]);
+					let after1 = kr.state(out, id, &subject);
+					kr.stats.hit(&format!("special_pbh_{}_{}", kind, class));
+					if class != "InvalidRoot" || after1 != before || subject.get_block_header(&chunk[0].hash()).is_ok() {
+						kr.fail(out, format!("single header with prev_root = {} on a known parent via process_block_header: {} (rule: InvalidRoot) {}", kind, class, show_stored(&chunk[0])));
+					}
+					let class = kr.pb(out, id, &subject, Options::NONE, &chunk[0], &honest[base + 1]);
+					let after2 = kr.state(out, id, &subject);
+					kr.stats.hit(&format!("special_pb_{}_{}", kind, class));
+					if class != "InvalidRoot" || after2 != before || subject.get_block_header(&chunk[0].hash()).is_ok() {
+						kr.fail(out, format!("block whose header has prev_root = {} on a known parent via process_block: {} (rule: InvalidRoot) {}", kind, class, show_stored(&chunk[0])));
+					}
 				}
 				if one_by_one.is_none() && rng.chance(1, 3) {
 					one_by_one = Some((k, chunk.clone()));
